@@ -652,6 +652,20 @@ fn reqrep_scenario(seed: u64, log: &mut Vec<String>) -> Result<(), (String, &'st
             8 => {
                 log.push(format!("another replier ({}) tries to register", late.len() + 1));
                 let l = new_replier(&mut tx);
+                // the refused replier's own connection may be slow: not ready at first, or slow to flush/close
+                match r.below(3) {
+                    0 => {
+                        l.sink.stall_ready();
+                        ex.run().map_err(spin)?;
+                        l.sink.recover();
+                    }
+                    1 => {
+                        l.sink.stall_flush();
+                        ex.run().map_err(spin)?;
+                        l.sink.recover();
+                    }
+                    _ => {}
+                }
                 late.push(l);
             }
             9 => {
@@ -766,7 +780,7 @@ fn reqrep_scenario(seed: u64, log: &mut Vec<String>) -> Result<(), (String, &'st
             return Err((format!("a reply reached requestor {i} with the server's routing tag still on it"), "C02"));
         }
         if !q.gone && st.flushed != st.got.len() {
-            return Err((format!("{} repl(ies) handed to requestor {i} were never flushed", st.got.len() - st.flushed), "C02 C09"));
+            return Err((format!("{} repl(ies) handed to requestor {i} were never flushed", st.got.len() - st.flushed), "C02 C09 C11"));
         }
     }
     // C10: every late replier was told code 5 and closed; it received no request
@@ -777,10 +791,10 @@ fn reqrep_scenario(seed: u64, log: &mut Vec<String>) -> Result<(), (String, &'st
             return Err((format!("late replier {} received a request although another replier is bound", i + 1), "C10"));
         }
         if errs != vec![5] {
-            return Err((format!("late replier {} was answered with error codes {:?} instead of one REPLIER_ALREADY_BOUND (5)", i + 1, errs), "C10"));
+            return Err((format!("late replier {} was answered with error codes {:?} instead of one REPLIER_ALREADY_BOUND (5)", i + 1, errs), "C10 C11"));
         }
         if !st.closed {
-            return Err((format!("late replier {} was refused but its stream was never closed", i + 1), "C10"));
+            return Err((format!("late replier {} was refused but its stream was never closed", i + 1), "C10 C11"));
         }
     }
     // the bound replier failing makes room for the next one (C10), and the router survives it (C08)
